@@ -343,6 +343,11 @@ def _worker(args):
     try:
         if with_corpus:
             cases = list(stream.corpus())
+            # witnesses of recorded findings (open and fixed) always run first
+            for f in load_findings(prop):
+                for w in f.get("witnesses", []) or ([f["witness"]] if f.get("witness") else []):
+                    if w.get("stream") == stream.name and "input" in w:
+                        cases.append(w["input"])
             if cases:
                 _run_cases(stream, cases, driver, summary, oracle_only)
         done = 0
@@ -520,7 +525,11 @@ def run_check(prop, tier, seed, replay=None):
 
     # 5. verdict
     findings = load_findings(prop)
-    open_sigs = {f["signature"]: f for f in findings if f.get("status") == "open"}
+    open_sigs = {}
+    for f in findings:
+        if f.get("status") == "open":
+            for sg in f.get("signatures", []) or [f["signature"]]:
+                open_sigs[sg] = f
     known_hits = collections.Counter()
     unknown = []
     for f in total["oracle_failures"]:
@@ -531,11 +540,15 @@ def run_check(prop, tier, seed, replay=None):
     # witnesses of open findings are replayed by the property module (mod.known_witnesses) as corpus cases
     violations = 0
     rc = 0
+    by_finding = collections.OrderedDict()
     for sig, fnd in sorted(open_sigs.items()):
-        if known_hits.get(sig):
-            lines.append("KNOWN-FINDING: property=%s %s [%s] (%d case(s) this run)" % (prop, fnd["text"], fnd["id"], total["oracle_fail_count"][sig]))
+        by_finding.setdefault(fnd["id"], [fnd, 0])
+        by_finding[fnd["id"]][1] += known_hits.get(sig, 0)
+    for fid, (fnd, n) in by_finding.items():
+        if n:
+            lines.append("KNOWN-FINDING: property=%s %s [%s] (%d case(s) this run)" % (prop, fnd["text"], fid, n))
         else:
-            lines.append("NOTE: listed finding %s did not manifest in this run (signature %s)" % (fnd["id"], sig))
+            lines.append("NOTE: listed finding %s did not manifest in this run" % fid)
     if unknown:
         by_sig = collections.OrderedDict()
         for f in unknown:
